@@ -112,6 +112,7 @@ func checkC05(e *Engine, r *Report) {
 		"R1 drain-on-success (every successful return of CreateContainer/UpdateContainer/StopContainer/Synchronize that follows a call which may mark a container pending passes getPendingUpdates; CreateContainer also getPendingAdjustment; reconfigure pushes updateContainers)",
 		"reply discipline (adjustment only for the request's container; one update per pending container; request cleared on retrieval; pending ids resolved through LookupContainer; update kind follows the container state)",
 		"no-undelivered-marks (handlers that cannot return updates never reach a call that marks a container pending)",
+		"R1 re-assertion on runtime-initiated updates (an UpdateContainer event that changes nothing for the policy re-sets each of the 7 cached resources that has a value, so the reply overrides whatever the runtime was about to apply)",
 	}
 	r.NotDecided = []string{
 		"that the runtime applies what it is sent", "equality over histories as such (consequence of the clauses above)",
@@ -124,6 +125,7 @@ func checkC05(e *Engine, r *Report) {
 		r.Undecided("anchor:cache.container", "anchor", "type cache.container exists", "-", nil, "not found")
 		return
 	}
+	checkUpdateReasserts(e, r)
 	getPendingRequest := r.Anchor(pkgCA, "container.getPendingRequest")
 	markPending := r.Anchor(pkgCA, "container.markPending")
 	cacheMarkPending := r.Anchor(pkgCA, "cache.markPending")
@@ -855,4 +857,81 @@ func checkReconfigurePush(e *Engine, r *Report) {
 			e.Pos(updCtrs.Pos()), updCtrs, okSend, "", true)
 	}
 
+}
+
+// checkUpdateReasserts: an UpdateContainer event carries the resources the runtime is about to apply on its own. When
+// they change nothing for the policy (SetResourceUpdates reports no real update) the handler re-sets every cached
+// resource that has a value — which marks it pending, so the reply tells the runtime the plugin's values again.
+func checkUpdateReasserts(e *Engine, r *Report) {
+	rule := "R1 re-assertion on runtime-initiated updates"
+	fn := r.Anchor(pkgRM, "nriPlugin.UpdateContainer")
+	if fn == nil {
+		return
+	}
+	var real ssa.Value
+	AllInstrs(fn, func(in ssa.Instruction) {
+		if c, ok := in.(ssa.CallInstruction); ok && callObj(c.Common()) != nil && callObj(c.Common()).Name() == "SetResourceUpdates" {
+			real = c.Value()
+		}
+	})
+	if real == nil {
+		r.Undecided("R1:update-reasserts", rule, "UpdateContainer consults SetResourceUpdates", e.Pos(fn.Pos()), fn, "call not found")
+		return
+	}
+	for _, setter := range c05Setters {
+		getter := "Get" + strings.TrimPrefix(setter, "Set")
+		setter := setter
+		// the getter call(s) on the looked-up container
+		var gets []ssa.Value
+		AllInstrs(fn, func(in ssa.Instruction) {
+			if c, ok := in.(ssa.CallInstruction); ok && callObj(c.Common()) != nil && callObj(c.Common()).Name() == getter && c.Value() != nil {
+				gets = append(gets, c.Value())
+			}
+		})
+		isGet := func(v ssa.Value) bool {
+			for _, g := range gets {
+				if unspill(v) == g {
+					return true
+				}
+			}
+			return false
+		}
+		asm := func(cond ssa.Value) (bool, bool) {
+			if unspill(cond) == real {
+				return true, false // nothing changes for the policy
+			}
+			if x, y, op, ok := cmpOriented(cond, isGet); ok {
+				_ = x
+				if k, isK := y.(*ssa.Const); isK && k.Value != nil {
+					zero := k.Value.ExactString() == "0" || k.Value.ExactString() == `""`
+					if zero {
+						switch op {
+						case token.NEQ, token.GTR:
+							return true, true
+						case token.EQL, token.LEQ:
+							return true, false
+						}
+					}
+				}
+			}
+			return false, false
+		}
+		sets := func(in ssa.Instruction) bool {
+			c, ok := in.(ssa.CallInstruction)
+			if !ok || callObj(c.Common()) == nil || callObj(c.Common()).Name() != setter {
+				return false
+			}
+			a := callArgs(c)
+			return len(a) == 2 && isGet(a[1])
+		}
+		ok := len(gets) > 0
+		var p []ssa.Instruction
+		if ok {
+			p = FindPath(PathQuery{Fn: fn, From: real.(ssa.Instruction), Assume: asm, Block: sets, Target: func(in ssa.Instruction) bool {
+				ret, isRet := in.(*ssa.Return)
+				return isRet && e.maySucceed(ret)
+			}})
+		}
+		r.Check("R1:update-reasserts#"+setter, rule, "an UpdateContainer event without real changes re-sets the cached "+strings.TrimPrefix(setter, "Set")+" when it has a value, so the reply re-tells it", e.Pos(fn.Pos()), fn, ok && p == nil, e.pathString(p), true)
+	}
 }
